@@ -44,186 +44,193 @@ func c17IssueMap(m z.ZogIssueMap) string {
 }
 
 func c17Lives() []func() c17Live {
-	t0 := time.Date(2020, 1, 1, 0, 0, 0, 0, time.UTC)
 	return []func() c17Live{
-		func() c17Live {
-			s := z.String().Min(3)
-			return c17Live{"String().Min(3)", 6, func(c int) {
-				switch c {
-				case 0:
-					s.Required()
-				case 1:
-					s.Optional()
-				case 2:
-					s.Default("aaaa")
-				case 3:
-					s.Default("bb")
-				case 4:
-					s.Catch("CA")
-				case 5:
-					s.Catch("CB")
-				}
-			}, func() (o []string) {
-				for _, in := range []any{nil, "x", "okay"} {
-					d := "§"
-					o = append(o, fmt.Sprintf("Parse(%v): %s -> %q", in, c17IssueList(s.Parse(in, &d)), d))
-				}
-				for _, v := range []string{"", "x", "okay"} {
-					d := v
-					o = append(o, fmt.Sprintf("Validate(%q): %s -> %q", v, c17IssueList(s.Validate(&d)), d))
-				}
-				return
-			}}
-		},
-		func() c17Live {
-			s := z.Int().GT(2)
-			return c17Live{"Int().GT(2)", 6, func(c int) {
-				switch c {
-				case 0:
-					s.Required()
-				case 1:
-					s.Optional()
-				case 2:
-					s.Default(7)
-				case 3:
-					s.Default(1)
-				case 4:
-					s.Catch(-1)
-				case 5:
-					s.Catch(-2)
-				}
-			}, func() (o []string) {
-				for _, in := range []any{nil, 1, 9, "abc"} {
-					d := -99
-					o = append(o, fmt.Sprintf("Parse(%v): %s -> %d", in, c17IssueList(s.Parse(in, &d)), d))
-				}
-				for _, v := range []int{0, 1, 9} {
-					d := v
-					o = append(o, fmt.Sprintf("Validate(%d): %s -> %d", v, c17IssueList(s.Validate(&d)), d))
-				}
-				return
-			}}
-		},
-		func() c17Live {
-			s := z.Float64().GT(2)
-			return c17Live{"Float64().GT(2)", 6, func(c int) {
-				switch c {
-				case 0:
-					s.Required()
-				case 1:
-					s.Optional()
-				case 2:
-					s.Default(7.5)
-				case 3:
-					s.Default(1.5)
-				case 4:
-					s.Catch(-1)
-				case 5:
-					s.Catch(-2)
-				}
-			}, func() (o []string) {
-				for _, in := range []any{nil, 1.5, 9.5} {
-					d := -99.0
-					o = append(o, fmt.Sprintf("Parse(%v): %s -> %v", in, c17IssueList(s.Parse(in, &d)), d))
-				}
-				for _, v := range []float64{0, 1.5, 9.5} {
-					d := v
-					o = append(o, fmt.Sprintf("Validate(%v): %s -> %v", v, c17IssueList(s.Validate(&d)), d))
-				}
-				return
-			}}
-		},
-		func() c17Live {
-			s := z.Bool().True()
-			return c17Live{"Bool().True()", 6, func(c int) {
-				switch c {
-				case 0:
-					s.Required()
-				case 1:
-					s.Optional()
-				case 2:
-					s.Default(true)
-				case 3:
-					s.Default(false)
-				case 4:
-					s.Catch(true)
-				case 5:
-					s.Catch(false)
-				}
-			}, func() (o []string) {
-				for _, in := range []any{nil, false, true, "abc"} {
-					d := false
-					o = append(o, fmt.Sprintf("Parse(%v): %s -> %v", in, c17IssueList(s.Parse(in, &d)), d))
-				}
-				for _, v := range []bool{false, true} {
-					d := v
-					o = append(o, fmt.Sprintf("Validate(%v): %s -> %v", v, c17IssueList(s.Validate(&d)), d))
-				}
-				return
-			}}
-		},
-		func() c17Live {
-			s := z.Time().After(t0)
-			return c17Live{"Time().After(t0)", 6, func(c int) {
-				switch c {
-				case 0:
-					s.Required()
-				case 1:
-					s.Optional()
-				case 2:
-					s.Default(t0.Add(time.Hour))
-				case 3:
-					s.Default(t0.Add(-time.Hour))
-				case 4:
-					s.Catch(t0.Add(24 * time.Hour))
-				case 5:
-					s.Catch(t0.Add(48 * time.Hour))
-				}
-			}, func() (o []string) {
-				for _, in := range []any{nil, t0.Add(-2 * time.Hour), t0.Add(2 * time.Hour), "abc"} {
-					var d time.Time
-					o = append(o, fmt.Sprintf("Parse(%v): %s -> %v", in, c17IssueList(s.Parse(in, &d)), d.UTC()))
-				}
-				for _, v := range []time.Time{{}, t0.Add(-2 * time.Hour), t0.Add(2 * time.Hour)} {
-					d := v
-					o = append(o, fmt.Sprintf("Validate(%v): %s -> %v", v, c17IssueList(s.Validate(&d)), d.UTC()))
-				}
-				return
-			}}
-		},
-		func() c17Live {
-			s := z.Slice(z.Int().GT(2)).Min(1)
-			return c17Live{"Slice(Int().GT(2)).Min(1)", 6, func(c int) {
-				switch c {
-				case 0:
-					s.Required()
-				case 1:
-					s.Optional()
-				case 2:
-					s.Default([]int{7})
-				case 3:
-					s.Default([]int{1, 1})
-				case 4:
-					s.Default(nil) // clears the default
-				case 5:
-					s.Default([]int{})
-				}
-			}, func() (o []string) {
-				for _, in := range []any{nil, []any{1}, []any{9}} {
-					d := []int{-99}
-					o = append(o, fmt.Sprintf("Parse(%v): %s -> %v", in, c17IssueMap(s.Parse(in, &d)), d))
-				}
-				for _, v := range [][]int{nil, {1}, {9}} {
-					d := append([]int(nil), v...)
-					o = append(o, fmt.Sprintf("Validate(%v): %s -> %v", v, c17IssueMap(s.Validate(&d)), d))
-				}
-				// as a field: absent key
-				var h struct{ L []int }
-				o = append(o, fmt.Sprintf("as field, key missing: %s -> %v", c17IssueMap(z.Struct(z.Schema{"l": s}).Parse(map[string]any{}, &h)), h.L))
-				return
-			}}
-		},
+		func() c17Live { return c17StrLive(z.String().Min(3)) },
+		func() c17Live { return c17IntLive(z.Int().GT(2)) },
+		func() c17Live { return c17FloatLive(z.Float64().GT(2)) },
+		func() c17Live { return c17BoolLive(z.Bool().True()) },
+		func() c17Live { return c17TimeLive(z.Time().After(c17T0)) },
+		func() c17Live { return c17SliceLive(z.Slice(z.Int().GT(2)).Min(1)) },
 	}
+}
+
+var c17T0 = time.Date(2020, 1, 1, 0, 0, 0, 0, time.UTC)
+
+func c17StrLive(s *z.StringSchema[string]) c17Live {
+	return c17Live{"String().Min(3)", 6, func(c int) {
+		switch c {
+		case 0:
+			s.Required()
+		case 1:
+			s.Optional()
+		case 2:
+			s.Default("aaaa")
+		case 3:
+			s.Default("bb")
+		case 4:
+			s.Catch("CA")
+		case 5:
+			s.Catch("CB")
+		}
+	}, func() (o []string) {
+		for _, in := range []any{nil, "x", "okay"} {
+			d := "§"
+			o = append(o, fmt.Sprintf("Parse(%v): %s -> %q", in, c17IssueList(s.Parse(in, &d)), d))
+		}
+		for _, v := range []string{"", "x", "okay"} {
+			d := v
+			o = append(o, fmt.Sprintf("Validate(%q): %s -> %q", v, c17IssueList(s.Validate(&d)), d))
+		}
+		return
+	}}
+}
+
+func c17IntLive(s *z.NumberSchema[int]) c17Live {
+	return c17Live{"Int().GT(2)", 6, func(c int) {
+		switch c {
+		case 0:
+			s.Required()
+		case 1:
+			s.Optional()
+		case 2:
+			s.Default(7)
+		case 3:
+			s.Default(1)
+		case 4:
+			s.Catch(-1)
+		case 5:
+			s.Catch(-2)
+		}
+	}, func() (o []string) {
+		for _, in := range []any{nil, 1, 9, "abc"} {
+			d := -99
+			o = append(o, fmt.Sprintf("Parse(%v): %s -> %d", in, c17IssueList(s.Parse(in, &d)), d))
+		}
+		for _, v := range []int{0, 1, 9} {
+			d := v
+			o = append(o, fmt.Sprintf("Validate(%d): %s -> %d", v, c17IssueList(s.Validate(&d)), d))
+		}
+		return
+	}}
+}
+
+func c17FloatLive(s *z.NumberSchema[float64]) c17Live {
+	return c17Live{"Float64().GT(2)", 6, func(c int) {
+		switch c {
+		case 0:
+			s.Required()
+		case 1:
+			s.Optional()
+		case 2:
+			s.Default(7.5)
+		case 3:
+			s.Default(1.5)
+		case 4:
+			s.Catch(-1)
+		case 5:
+			s.Catch(-2)
+		}
+	}, func() (o []string) {
+		for _, in := range []any{nil, 1.5, 9.5} {
+			d := -99.0
+			o = append(o, fmt.Sprintf("Parse(%v): %s -> %v", in, c17IssueList(s.Parse(in, &d)), d))
+		}
+		for _, v := range []float64{0, 1.5, 9.5} {
+			d := v
+			o = append(o, fmt.Sprintf("Validate(%v): %s -> %v", v, c17IssueList(s.Validate(&d)), d))
+		}
+		return
+	}}
+}
+
+func c17BoolLive(s *z.BoolSchema[bool]) c17Live {
+	return c17Live{"Bool().True()", 6, func(c int) {
+		switch c {
+		case 0:
+			s.Required()
+		case 1:
+			s.Optional()
+		case 2:
+			s.Default(true)
+		case 3:
+			s.Default(false)
+		case 4:
+			s.Catch(true)
+		case 5:
+			s.Catch(false)
+		}
+	}, func() (o []string) {
+		for _, in := range []any{nil, false, true, "abc"} {
+			d := false
+			o = append(o, fmt.Sprintf("Parse(%v): %s -> %v", in, c17IssueList(s.Parse(in, &d)), d))
+		}
+		for _, v := range []bool{false, true} {
+			d := v
+			o = append(o, fmt.Sprintf("Validate(%v): %s -> %v", v, c17IssueList(s.Validate(&d)), d))
+		}
+		return
+	}}
+}
+
+func c17TimeLive(s *z.TimeSchema) c17Live {
+	return c17Live{"Time().After(c17T0)", 6, func(c int) {
+		switch c {
+		case 0:
+			s.Required()
+		case 1:
+			s.Optional()
+		case 2:
+			s.Default(c17T0.Add(time.Hour))
+		case 3:
+			s.Default(c17T0.Add(-time.Hour))
+		case 4:
+			s.Catch(c17T0.Add(24 * time.Hour))
+		case 5:
+			s.Catch(c17T0.Add(48 * time.Hour))
+		}
+	}, func() (o []string) {
+		for _, in := range []any{nil, c17T0.Add(-2 * time.Hour), c17T0.Add(2 * time.Hour), "abc"} {
+			var d time.Time
+			o = append(o, fmt.Sprintf("Parse(%v): %s -> %v", in, c17IssueList(s.Parse(in, &d)), d.UTC()))
+		}
+		for _, v := range []time.Time{{}, c17T0.Add(-2 * time.Hour), c17T0.Add(2 * time.Hour)} {
+			d := v
+			o = append(o, fmt.Sprintf("Validate(%v): %s -> %v", v, c17IssueList(s.Validate(&d)), d.UTC()))
+		}
+		return
+	}}
+}
+
+func c17SliceLive(s *z.SliceSchema) c17Live {
+	return c17Live{"Slice(Int().GT(2)).Min(1)", 6, func(c int) {
+		switch c {
+		case 0:
+			s.Required()
+		case 1:
+			s.Optional()
+		case 2:
+			s.Default([]int{7})
+		case 3:
+			s.Default([]int{1, 1})
+		case 4:
+			s.Default(nil) // clears the default
+		case 5:
+			s.Default([]int{})
+		}
+	}, func() (o []string) {
+		for _, in := range []any{nil, []any{1}, []any{9}} {
+			d := []int{-99}
+			o = append(o, fmt.Sprintf("Parse(%v): %s -> %v", in, c17IssueMap(s.Parse(in, &d)), d))
+		}
+		for _, v := range [][]int{nil, {1}, {9}} {
+			d := append([]int(nil), v...)
+			o = append(o, fmt.Sprintf("Validate(%v): %s -> %v", v, c17IssueMap(s.Validate(&d)), d))
+		}
+		// as a field: absent key
+		var h struct{ L []int }
+		o = append(o, fmt.Sprintf("as field, key missing: %s -> %v", c17IssueMap(z.Struct(z.Schema{"l": s}).Parse(map[string]any{}, &h)), h.L))
+		return
+	}}
 }
 
 func c17ReuseScenario(x *mc.X) *mc.Outcome {
@@ -278,6 +285,62 @@ func c17ReuseScenario(x *mc.X) *mc.Outcome {
 			}
 			out.Viol = append(out.Viol, &mc.Violation{Key: "C17:modifier-after-use:" + live.name, What: "a schema that was used between its builder calls does not behave like a fresh schema on which the same calls were made", Expected: want[i], Observed: g})
 			break
+		}
+	}
+	return out
+}
+
+// A Go value copy of a schema (fork := *base) is a second schema: builder calls on the copy act on the copy.
+// One execution = one primitive kind with Default and Catch already set, one modifier call made on a value copy
+// of it; the original must behave exactly as before the call, and the copy like a fresh schema given the
+// original's calls followed by the new one.
+func c17ValueCopyScenario(x *mc.X) *mc.Outcome {
+	zh.Reset()
+	zh.Install(x, zh.PoolLIFO, zh.OrderSorted)
+	kind := x.Choose(5, "kind")
+	call := 2 + x.Choose(4, "call on the copy") // Default(a), Default(b), Catch(a), Catch(b) of the kind's alphabet
+	var base, fork, fresh c17Live
+	switch kind {
+	case 0:
+		s := z.String().Min(3).Default("aaaa").Catch("CA")
+		c := *s
+		base, fork, fresh = c17StrLive(s), c17StrLive(&c), c17StrLive(z.String().Min(3).Default("aaaa").Catch("CA"))
+	case 1:
+		s := z.Int().GT(2).Default(7).Catch(-1)
+		c := *s
+		base, fork, fresh = c17IntLive(s), c17IntLive(&c), c17IntLive(z.Int().GT(2).Default(7).Catch(-1))
+	case 2:
+		s := z.Float64().GT(2).Default(7.5).Catch(-1)
+		c := *s
+		base, fork, fresh = c17FloatLive(s), c17FloatLive(&c), c17FloatLive(z.Float64().GT(2).Default(7.5).Catch(-1))
+	case 3:
+		s := z.Bool().True().Default(true).Catch(true)
+		c := *s
+		base, fork, fresh = c17BoolLive(s), c17BoolLive(&c), c17BoolLive(z.Bool().True().Default(true).Catch(true))
+	default:
+		s := z.Time().After(c17T0).Default(c17T0.Add(time.Hour)).Catch(c17T0.Add(24 * time.Hour))
+		c := *s
+		base, fork, fresh = c17TimeLive(s), c17TimeLive(&c), c17TimeLive(z.Time().After(c17T0).Default(c17T0.Add(time.Hour)).Catch(c17T0.Add(24*time.Hour)))
+	}
+	before := base.obs()
+	fork.apply(call)
+	fresh.apply(call)
+	after, gotFork, wantFork := base.obs(), fork.obs(), fresh.obs()
+	zh.Reset()
+	out := &mc.Outcome{Traces: 4, Nontrivial: true, Sig: fmt.Sprintf("valuecopy|%s|%s", base.name, c17CallNames[call])}
+	out.Sample = map[string]any{"schema": base.name, "call_on_copy": c17CallNames[call], "original": before}
+	for i := range before {
+		if after[i] != before[i] {
+			x.Note("%s with Default(a).Catch(a); fork := *schema; fork.%s", base.name, c17CallNames[call])
+			out.Viol = append(out.Viol, &mc.Violation{Key: "C17:value-copy:original-changed:" + base.name, What: "a builder call on a value copy of a schema changed the original", Expected: before[i], Observed: after[i]})
+			return out
+		}
+	}
+	for i := range wantFork {
+		if gotFork[i] != wantFork[i] {
+			x.Note("%s with Default(a).Catch(a); fork := *schema; fork.%s", base.name, c17CallNames[call])
+			out.Viol = append(out.Viol, &mc.Violation{Key: "C17:value-copy:copy-differs:" + base.name, What: "a value copy of a schema given one more builder call does not behave like a fresh schema given the same calls", Expected: wantFork[i], Observed: gotFork[i]})
+			return out
 		}
 	}
 	return out
